@@ -19,6 +19,7 @@
 #include <sys/wait.h>
 #include "bitserializer/bit_serializer.h"
 #include "bitserializer/msgpack_archive.h"
+#include "bitserializer/rapidjson_archive.h"
 #include "bitserializer/convert.h"
 #include "bitserializer/types/std/chrono.h"
 #include "bitserializer/types/std/ctime.h"
@@ -26,6 +27,7 @@
 using namespace BitSerializer;
 namespace chr = std::chrono;
 using MsgPackArchive = BitSerializer::MsgPack::MsgPackArchive;
+using JsonArchive = BitSerializer::Json::RapidJson::JsonArchive;
 
 //-----------------------------------------------------------------------------
 template <class T> static std::string Dec(T v)
@@ -69,10 +71,31 @@ struct HolderTime
 	template <class TArchive> void Serialize(TArchive& archive) { archive << KeyValue("v", CTimeRef(v)); }
 };
 
+// MsgPack saved to a std::ostream and loaded from a std::istream (the stream writer / reader are separate implementations)
+template <class THolder, class FSet, class FGet>
+static void StreamRoundTrip(FSet set, FGet get, std::string& outcome, std::string& hex)
+{
+	std::string bytes;
+	bool saved = false;
+	const std::string sr = Outcome([&] {
+		THolder h; set(h);
+		std::ostringstream os(std::ios::out | std::ios::binary);
+		BitSerializer::SaveObject<MsgPackArchive>(h, os);
+		bytes = os.str(); saved = true; return std::string(); });
+	if (!saved) { outcome = "S" + sr; return; }
+	hex = vh::Hex(bytes);
+	outcome = Outcome([&] {
+		THolder h2;
+		std::istringstream is(bytes, std::ios::in | std::ios::binary);
+		BitSerializer::LoadObject<MsgPackArchive>(h2, is);
+		return get(h2); });
+}
+
 // One observed instant
 struct Obs
 {
 	std::string count, text, back, sec, ns, tsback, mp, mphex, t16, t32, tw;
+	std::string mps = "-", mpshex, js = "-", jstext;		// MsgPack through std::ostream / std::istream; JSON text archive (time_t)
 };
 
 template <class TValue, class FMake, class FCount>
@@ -110,6 +133,7 @@ static Obs ObserveValue(const TValue& value, FMake make, FCount countOf)
 		o.mp = Outcome([&] { Holder<TValue> h2; h2.v = make(0); BitSerializer::LoadObject<MsgPackArchive>(h2, bytes); return Dec(countOf(h2.v)); });
 	}
 	else { o.mp = "S" + sr; }
+	StreamRoundTrip<Holder<TValue>>([&](Holder<TValue>& h) { h.v = value; }, [&](Holder<TValue>& h) { return Dec(countOf(h.v)); }, o.mps, o.mpshex);
 	return o;
 }
 
@@ -145,6 +169,11 @@ static Obs ObserveTimeT(int64_t c)
 		o.mp = Outcome([&] { HolderTime h2; BitSerializer::LoadObject<MsgPackArchive>(h2, bytes); return Dec(static_cast<int64_t>(h2.v)); });
 	}
 	else o.mp = "S" + sr;
+	StreamRoundTrip<HolderTime>([&](HolderTime& h) { h.v = static_cast<time_t>(c); }, [&](HolderTime& h) { return Dec(static_cast<int64_t>(h.v)); }, o.mps, o.mpshex);
+	// time_t through CTimeRef in a text archive: written as ISO-8601 text, parsed back by Detail::SafeConvertIsoDate
+	bool jsaved = false;
+	const std::string jr = Outcome([&] { HolderTime h; h.v = static_cast<time_t>(c); o.jstext = BitSerializer::SaveObject<JsonArchive>(h); jsaved = true; return std::string(); });
+	o.js = jsaved ? Outcome([&] { HolderTime h2; h2.v = 12345; BitSerializer::LoadObject<JsonArchive>(h2, o.jstext); return Dec(static_cast<int64_t>(h2.v)); }) : "S" + jr;
 	return o;
 }
 
@@ -176,7 +205,8 @@ static std::string ObsLine(const std::string& id, const std::string& k, const st
 	return "{\"id\":" + Q(id) + ",\"k\":" + Q(k) + ",\"u\":" + Q(u) + ",\"r\":" + Q(r) + ",\"c\":" + Q(o.count) + ",\"cby\":" + BytesBE(c) +
 		",\"text\":" + Q(o.text) + ",\"tc\":" + UnitsJson(o.text) + ",\"t16\":" + (o.t16.rfind("V:", 0) == 0 ? o.t16.substr(2) : UnitsJson(o.t16)) +
 		",\"t32\":" + (o.t32.rfind("V:", 0) == 0 ? o.t32.substr(2) : UnitsJson(o.t32)) + ",\"tw\":" + (o.tw.rfind("V:", 0) == 0 ? o.tw.substr(2) : UnitsJson(o.tw)) +
-		",\"back\":" + Q(o.back) + ",\"ts\":[" + Q(o.sec) + "," + Q(o.ns) + "],\"tsback\":" + Q(o.tsback) + ",\"mp\":" + Q(o.mp) + ",\"mpk\":" + Q(o.mp.substr(0, 1)) + ",\"mphex\":" + Q(o.mphex) + "}\n";
+		",\"back\":" + Q(o.back) + ",\"ts\":[" + Q(o.sec) + "," + Q(o.ns) + "],\"tsback\":" + Q(o.tsback) + ",\"mp\":" + Q(o.mp) + ",\"mpk\":" + Q(o.mp.substr(0, 1)) + ",\"mphex\":" + Q(o.mphex) +
+		",\"mps\":" + Q(o.mps) + ",\"mpsk\":" + Q(o.mps.substr(0, 1)) + ",\"mpshex\":" + Q(o.mpshex) + ",\"js\":" + Q(o.js) + ",\"jstext\":" + Q(o.jstext) + "}\n";
 }
 
 static std::string RunInstant(const std::string& id, const std::string& k, const std::string& u, const std::string& r, int64_t c)
